@@ -3,13 +3,15 @@ import numpy as np
 
 from props import backends_common as bc
 from props import gauss_common as gc
+from props import fock_axes as fa
 from vlib import sfgen
 
 PROP = "C05"
 LEVEL = "proof"
-COQ_DIRS = ["C05"]
-COQ_TARGETS = ["Gen/GaussCirc.vo", "C05/GaussSpectators.vo"]
+COQ_DIRS = ["C05", "FockAxes"]
+COQ_TARGETS = ["Gen/GaussCirc.vo", "C05/GaussSpectators.vo"] + list(fa.COQ_TARGETS)
 PROPERTIES_FILE = "Properties/C05.v"
+EXTRA_PROPERTIES_FILES = [fa.PROPERTIES_FILE]
 ALLOWED_AXIOMS = set()
 TRANSLATORS = [gc.translate_gausscirc]
 RULE = ("(a) generated-function correspondence: random (method, register size 1-5, target position, parameters incl. 0 and "
@@ -20,7 +22,7 @@ RULE = ("(a) generated-function correspondence: random (method, register size 1-
 TRUSTED_BASE = [
     "Coq 8.16.1 kernel; vm_compute for evaluating generated functions at PrimFloat",
     "translator tools/translate_gauss.py (fail-closed; output validated against GaussianModes on every run at binary64, tol 2^-30)",
-    "hand model coq/C05/FockLocality.v of the axis bookkeeping of fockbackend/circuit.py, tied by exact integer-tensor correspondence",
+    "hand model coq/FockAxes/Model.v of the axis bookkeeping of fockbackend/circuit.py (apply_gate_BLAS, apply_twomode_gate, _apply_channel, mix, prepare, alloc), tied by exact integer-tensor correspondence",
     "spectator search on the implementation (a test, not a proof): Fock tolerance 1e-6 + 4*sqrt(1 - trace)",
 ]
 ASSUMPTIONS = ["Fock matrix elements of gates are not modelled (The Walrus / ops.py closed forms)"]
@@ -33,6 +35,7 @@ FOCK_NAMES = [x for x in GAUSS_NAMES if x not in ("ThermalLossChannel", "Thermal
 
 
 def correspondence(ctx):
+    fa.correspondence_fock_axes(ctx)
     failing = gc.correspondence_generated(ctx, ctx.budget(240, 3000), tag="c05")
     if failing is None:
         return
@@ -127,6 +130,8 @@ def search(ctx):
 
 def replay(ctx, data):
     d = data["data"]
+    if d.get("check") == "fock-axes":
+        return fa.replay_fock_axes(ctx, data)
     if d.get("check") == "spect":
         changed, detail = spectators_changed(d["backend"], d["n"], d["pre"], d["cmd"])
         print(detail)
